@@ -27,20 +27,33 @@ Covered
     matrix of determinant one (identity / half turn about Z / half turn about X / both) applied AFTER the raw
     transformation (in the aligned frame), chosen so that the mean x-axis sample lands at X >= 0 and the first base
     station at Z >= 0; hence what the raw solution maps to the origin / the X axis / the plane Z = 0 stays there
-    (mirror-flipped answers are corrected without moving the origin).  Stated for an arbitrary probe point.
+    (mirror-flipped answers are corrected without moving the origin).  Stated for an arbitrary probe point.  If the
+    raw rotation matrix is orthonormal so is the result's, and the determinant is unchanged (proper stays proper).
+  * Pose.rotate_translate_pose (rigidity of ONE transformation applied to two poses): the squared distance between
+    the two positions changes by exactly d^T (T.R^T T.R - I) d and the relative orientation a.R^T b.R by exactly
+    a.R^T (T.R^T T.R - I) b.R - polynomial identities; both vanish when T.R is orthonormal.  Together with the two
+    aligner contracts: if the least-squares answer is a proper rigid transformation, distances and relative
+    orientations between base stations are preserved by `align`.
 
 Not covered (and why)
   * that _find_transformation (scipy.optimize.least_squares from a zero start, ten evaluations) returns a proper rigid
     transformation with zero residual for misalignments below 30 degrees: numerical convergence of an external
     optimiser, not a contract (DESIGN.md: N/A);
-  * preservation of distances / relative orientations by `align`: follows from the "one transformation" contract
-    once T.R is orthogonal; T.R comes from scipy's Rotation (external) and the orthogonality algebra is nonlinear real
-    arithmetic the solvers do not decide reliably (DESIGN.md probe 6), so it is not claimed;
+  * that the matrix of that answer is orthonormal with determinant one: contract of scipy's Rotation.as_matrix
+    (external); the implication "orthonormal => distance preserved" as ONE solver goal is not decided by z3 (cvc5 needs
+    25 s, above the budget), which is why rigidity is stated through the exact defect term (T.R^T T.R - I) instead;
   * calc_intersection_point being the true ray/plane intersection (geometry of LighthouseBsVector.cart, trigonometric)
     - only its homogeneity is proved;
   * float rounding (mode R), numpy broadcasting beyond scalar/equal shapes, integer arrays, non-finite values, a zero
-    reference distance / zero estimated diagonal (numpy yields inf/nan with a RuntimeWarning; excluded by
-    pre-conditions).
+    reference distance / zero estimated diagonal / a ray parallel to the deck (numpy yields inf/nan with a
+    RuntimeWarning, no exception; excluded by pre-conditions);
+  * empty sample lists / an empty base-station dictionary for the aligner (the property quantifies over one or more).
+
+Stubs (c.patch, the same stub object runs natively): _find_transformation (returns an arbitrary pose),
+_calculate_mean_diagonal (returns an arbitrary non-zero numpy scalar), calc_intersection_distance (returns arbitrary
+numpy scalars) - each only in the contracts of their callers; the latter two have their own contracts below.
+Base-station ids are the concrete keys 0, 3, 1 (the code only copies them).  Aligner inputs are bounded by 10 in
+absolute value (metres / matrix entries) so that native replays stay inside the 1e-9 tolerance of those ensures.
 """
 from pyvc.api import contract
 
